@@ -72,6 +72,33 @@ def generate(rng, tier):
         for qs in ([f"p{far[0]}", f"v{far[0]}", "d"], [f"p{mid}", f"p{far[2]}", f"p{far[1]}", f"a{far[3]}"],
                    [f"p{far[3]}", f"p{mid}", f"v{far[0]}"], [f"a{far[1]}", f"p{f2b(1.0)}", f"p{far[2]}", "d", f"p{far[0]}"]):
             out.append((f"traj {'bo'[i % 2]} {hx(blk)} " + " ".join(qs), True))
+    # the hold state behind the last segment stores the 16-bit truncation of (2^32 - 1 - total) as its 'duration': when that
+    # number happens to equal the duration of the first segment (total + first = 65535 mod 65536), nothing may be carried
+    # over from the hold state into the first segment after a rewind
+    from vlib.gen_stats import build
+    for i in range(8 if thorough else 3):
+        d0 = rng.choice([5000, 1, 20000, 7])
+        mids = [d0] * rng.choice([0, 1, 2]) + [rng.choice([10000, 3000]) for _ in range(rng.choice([1, 3]))]
+        last = (65535 - d0 - d0 - sum(mids)) % 65536
+        if last == 0:
+            last = 65536 - 1
+            mids.append(1)
+            last = (65535 - d0 - d0 - sum(mids)) % 65536
+        durs = [d0] + mids + [last]
+        assert (sum(durs) + d0) % 65536 == 65535
+        x, z = 0, 0
+        segs = []
+        for d in durs:
+            x2, z2 = x + rng.randint(500, 3000), z + rng.randint(-500, 2000)
+            segs.append((d, [x + rng.randint(0, 900), x2 - 100, x2], [], [z2], []))
+            x, z = x2, z2
+        blk = build(rng.choice([1, 10]), (0, 0, 0, 0), segs)
+        tot = sum(durs) / 1000.0
+        inside0 = f2b(d0 / 2000.0)
+        inside1 = f2b((d0 + mids[0] / 2.0) / 1000.0)
+        for qs in ([f"p{f2b(tot + 5)}", f"v{inside0}", f"a{inside0}", f"v{inside1}"], ["d", f"a{inside0}", f"v{inside0}", f"a{inside1}"],
+                   [f"p{PINF}", f"v{inside0}", f"p{inside0}", f"a{inside1}"], [f"v{inside0}", f"a{inside0}", f"p{f2b(tot + 1)}", f"v{inside1}", f"v{inside0}"]):
+            out.append((f"traj {'bo'[i % 2]} {hx(blk)} " + " ".join(qs), True))
     for i in range(nobj):
         blk, durs = yaw_block(rng, n=rng.choice([2, 3, 5, 8]))
         ts = probe_times(rng, durs, 1)
